@@ -5,7 +5,7 @@ import OjgVerif.Script.Model
 Values and expression trees travel in postfix (RPN) token form, tokens separated by one space:
 
   values  `n` null · `t` `f` · `N` Nothing · `i<int>` · `d<m>:<e>` (m·2^e) `dinf` `d-inf` `dnan` ·
-          `s<hex>` string · `r<hex>` regex pattern · `x<ty>,<cmp>,<id>,<core>` typed Go value (`Val.ext`) · `a<k>` array of the k values below ·
+          `s<hex>` string · `r<hex>` regex pattern · `x<ty>,<cmp>,<id>,<core>,<tcmp>` typed Go value (`Val.ext`) · `a<k>` array of the k values below ·
           `o<k>` object of the k (string key, value) pairs below
   trees   `c` constant of the value below · `p<@|$>[:c<hex>|:n<int>|:w]*` path ·
           `u<op>` / `b<op>` application to the one / two trees below
@@ -18,7 +18,8 @@ Requests:
           `$` is the element), `doc` (Expr.Get: `$` is the filtered container) or `nil` (Script.Eval)
 
 `<dev>` is the set of deviations the model carries: letters `u` (uncomparable panic), `q`
-(float != x), `v` (int via float64), or `-`. Verdict letters: `t` `f`, `X` uncomparable fault,
+(float != x), `v` (int via float64), `i` (== on struct/array values holding a slice or map in an interface field
+panics: the CURRENT tree), or `-`. Verdict letters: `t` `f`, `X` uncomparable fault,
 `Y` index fault. -/
 namespace OjgVerif.Script
 open OjgVerif
@@ -124,10 +125,10 @@ def stepTok (st : List Cell) (tok : String) : List Cell :=
     | none => [.bad]
   else if tok.startsWith "x" then
     match rest.splitOn "," with
-    | [ty, cmp, id, core] =>
+    | [ty, cmp, id, core, tcmp] =>
       match ty.toNat?, id.toNat?, parseCore core with
       | some ty, some id, some c =>
-        if cmp = "0" || cmp = "1" then .v (.ext ⟨ty, cmp = "1", id, c⟩) :: st else [.bad]
+        if (cmp = "0" || cmp = "1") && (tcmp = "0" || tcmp = "1") then .v (.ext ⟨ty, cmp = "1", id, c, tcmp = "1"⟩) :: st else [.bad]
       | _, _, _ => [.bad]
     | _ => [.bad]
   else if tok.startsWith "p" then
@@ -162,8 +163,8 @@ def parseTm (s : String) : Option Tm :=
   | _ => none
 
 def parseDev (s : String) : Option Dev :=
-  if s.toList.all (fun c => c = 'u' || c = 'q' || c = 'v' || c = '-') then
-    some ⟨s.contains 'u', s.contains 'q', s.contains 'v'⟩
+  if s.toList.all (fun c => c = 'u' || c = 'q' || c = 'v' || c = 'i' || c = '-') then
+    some ⟨s.contains 'u', s.contains 'q', s.contains 'v', s.contains 'i'⟩
   else none
 
 /-! literal-text regular expressions: optional `^`, then letters/digits/space/underscore and bytes of
@@ -218,6 +219,7 @@ mutual
     | .str s => "s" ++ toHexF s
     | .rx s => "r" ++ toHexF s
     | .ext e => "x" ++ toString e.ty ++ "," ++ (if e.cmp then "1" else "0") ++ "," ++ toString e.id ++ "," ++ renderCore e.core
+        ++ "," ++ (if e.tcmp then "1" else "0")
     | .arr xs => renderVals xs ++ "a" ++ toString xs.length
     | .obj kvs => renderKvs kvs ++ "o" ++ toString kvs.length
   def renderVals : List Val → String
@@ -242,6 +244,7 @@ def verdict : Except Fault Bool → Char
 def without (d : Dev) (c : Char) : Dev :=
   if c = 'u' then { d with uncmp := false }
   else if c = 'q' then { d with neqFlt := false }
+  else if c = 'i' then { d with ifaceTrap := false }
   else { d with viaF64 := false }
 
 def handle : List String → String
@@ -265,6 +268,7 @@ def handle : List String → String
         let spec := String.ofList (els.map fun e => if Spec.matches litRx t e (rootOf e) then 't' else 'f')
         "S:" ++ spec ++ "|M:" ++ model d ++ "|F:" ++ model Dev.fixed
           ++ "|u:" ++ model (without d 'u') ++ "|q:" ++ model (without d 'q') ++ "|v:" ++ model (without d 'v')
+          ++ "|i:" ++ model (without d 'i')
     | _, _, _ => "bad-op"
   | _ => "bad-op"
 
